@@ -102,6 +102,28 @@ fn null_as_empty(t: &crate::wire::value::MType, v: &crate::wire::value::MVal) ->
     }
 }
 
+/// `v` (already in canonical order) with equal neighbours inside sets and equal keys inside maps removed.
+fn canon_dedup(t: &crate::wire::value::MType, v: &crate::wire::value::MVal) -> crate::wire::value::MVal {
+    use crate::wire::value::{MType as T, MVal as V};
+    match (t, v) {
+        (T::Set(e), V::Set(i)) => {
+            let mut items: Vec<V> = i.iter().map(|x| canon_dedup(e, x)).collect();
+            items.dedup();
+            V::Set(items)
+        }
+        (T::Map(k, w), V::Map(i)) => {
+            let mut items: Vec<(V, V)> = i.iter().map(|(a, b)| (canon_dedup(k, a), canon_dedup(w, b))).collect();
+            items.dedup_by(|x, y| x.0 == y.0);
+            V::Map(items)
+        }
+        (T::List(e), V::List(i)) => V::List(i.iter().map(|x| canon_dedup(e, x)).collect()),
+        (T::Vector(e, _), V::Vector(i)) => V::Vector(i.iter().map(|x| canon_dedup(e, x)).collect()),
+        (T::Tuple(ts), V::Tuple(i)) => V::Tuple(ts.iter().zip(i.iter()).map(|(t, x)| canon_dedup(t, x)).collect()),
+        (T::Udt { fields, .. }, V::Udt(i)) => V::Udt(fields.iter().zip(i.iter()).map(|((_, t), (n, x))| (n.clone(), canon_dedup(t, x))).collect()),
+        (_, v) => v.clone(),
+    }
+}
+
 /// `[u16 type selector][cell bytes]`: arbitrary bytes as the contents of a cell of a column type from
 /// the C17 universe, read by the driver (dynamic value and every typed carrier documented for that
 /// type) and by the strict reference decoder. Whatever the reference accepts as a valid encoding the
@@ -153,6 +175,11 @@ pub fn c01_cell(data: &[u8]) {
             continue;
         }
         if let (Ok(got), Ok(m)) = (car.decode(t, ct, Some(cell)), &reference) {
+            // duplicates inside a set / equal map keys are not a server state; set-like carriers collapse them
+            let reference_has_dups = canon_dedup(t, &canon(t, &normalise(t, m))) != canon(t, &normalise(t, m));
+            if reference_has_dups {
+                continue;
+            }
             let (a, b) = (canon(t, &null_as_empty(t, &normalise(t, &got))), canon(t, &null_as_empty(t, &normalise(t, m))));
             if a != b {
                 panic!("VIOLATION C01/cell signature=carrier_value_differs: {} read {cell:02x?} as {t:?}: got {a:?}, reference {b:?}", car.name());
